@@ -54,6 +54,7 @@ theorem exec_oof_sticky (M : Machine σ α π) (P : Prog) (n : Nat) :
         by_cases c : M.aliveL r.m l = true
         · simp only [c, if_true] at h
           have h1 := ih _ _ h
+          rw [markIf_oof] at h1
           have h2 := ih _ _ h1
           exact h2
         · simp only [c] at h; exact h
@@ -106,6 +107,7 @@ theorem exec_fuel_mono (M : Machine σ α π) (P : Prog) (n : Nat) :
         by_cases c : M.aliveL r.m l = true
         · simp only [c, if_true] at h ⊢
           have h1 := exec_oof_sticky M P n _ _ h
+          rw [markIf_oof] at h1
           rw [ih _ _ h1 k hk]
           exact ih _ _ h k hk
         · simp only [c, Bool.false_eq_true, if_false]
